@@ -149,13 +149,18 @@ func routeFuncs(a *Anchors, prefixes ...string) []*ssa.Function {
 	return out
 }
 
+// targetParam: the target of a Route* function, identified by type and position (not by name):
+// RouteTerminate*(target, reason) -> first parameter; Route{Link,Unlink,Monitor,Demonitor}*(pid, target) -> last
+// parameter of an identity kind.
 func targetParam(f *ssa.Function) *ssa.Parameter {
-	for _, pa := range f.Params {
-		if pa.Name() == "target" {
-			return pa
+	kinds := []string{"gen.PID", "gen.ProcessID", "gen.Alias", "gen.Event"}
+	if strings.HasPrefix(f.Name(), "RouteTerminate") {
+		ps := f.Params
+		if f.Signature.Recv() != nil && len(ps) > 1 {
+			return ps[1]
 		}
 	}
-	return nil
+	return lastParamOfKinds(f, kinds...)
 }
 
 // isArgOf: v is (a MakeInterface of / load of the spilled) parameter par
@@ -420,12 +425,7 @@ func c04Fanout(a *Anchors, r *core.Report) {
 		if par == nil {
 			continue
 		}
-		var reason *ssa.Parameter
-		for _, pa := range f.Params {
-			if pa.Name() == "reason" {
-				reason = pa
-			}
-		}
+		reason := paramOfType(f, "error", 0)
 		fn := fname(f)
 		key := "C04.L4|" + f.Name()
 		inst := f.Name() + ": one CleanupTarget; one exit per link consumer and one High-priority down per monitor consumer, carrying this target and this reason; one Terminate frame per remote node"
@@ -731,22 +731,13 @@ func c04Index(a *Anchors, r *core.Report) {
 			guarded := false
 			eachInstr(f, func(in ssa.Instruction) {
 				b, ok := in.(*ssa.BinOp)
-				if !ok || b.Op != token.EQL {
+				if !ok {
 					return
 				}
-				c, okc := b.X.(*ssa.Call)
-				z, okz := constInt(b.Y)
-				if !okc || !okz || z != 0 {
-					return
-				}
-				if bi, okb := c.Common().Value.(*ssa.Builtin); !okb || bi.Name() != "len" {
-					return
-				}
-				if mapOrigin(c.Common().Args[0]) != "index-inner" {
-					return
-				}
-				t, _, _ := boolEdges(b)
-				if edgesDominate(t, m.in) {
+				es := leqEdges(b, func(v ssa.Value) bool {
+					return isLenCallOf(v, func(x ssa.Value) bool { return mapOrigin(x) == "index-inner" })
+				}, 0)
+				if len(es) > 0 && edgesDominate(es, m.in) {
 					guarded = true
 				}
 			})
